@@ -68,6 +68,11 @@ class CountInt(int):
             CountInt.log.append(sys.getsizeof(r))
         return r
 
+    def __mul__(self, other):          # the same product written `count * x`
+        if isinstance(other, (str, tuple, list)):
+            return self.__rmul__(other)
+        return int(self) * other
+
 
 def outcome_of(exc):
     if isinstance(exc, exceptions.CollectionTooLargeException):
@@ -316,6 +321,32 @@ def own_size(v):
     return sys.getsizeof(v, 0), None
 
 
+def deep_max(v, budget):
+    """Largest own size among the str / collection nodes of a (materialised) value."""
+    best = 0
+    stack = [v]
+    while stack and budget[0] > 0:
+        x = stack.pop()
+        budget[0] -= 1
+        if isinstance(x, (str, tuple, list, dict, set, frozenset, utils.FrozenDict)):
+            rep, inner = own_size(x)
+            best = max(best, inner or rep)
+        if isinstance(x, str) or x is None or isinstance(x, (int, float)):
+            continue
+        if isinstance(x, (dict, utils.FrozenDict)):
+            for k, y in x.items():
+                stack.append(k)
+                stack.append(y)
+        elif utils.is_iterable(x):
+            n = 0
+            for y in x:                 # lazy results are drained here (bounded)
+                stack.append(y)
+                n += 1
+                if n > 2000:
+                    break
+    return best
+
+
 _recorded = []
 _patched = [False]
 
@@ -370,11 +401,15 @@ def run_expr(task, emit):
     if task.get("trace"):
         peak = tracemalloc.get_traced_memory()[1] - base
         tracemalloc.stop()
-    size, inner = (None, None)
+    size, inner, deep = (None, None, None)
     if out == "Ok":
         size, inner = own_size(val)
+        if task.get("deep"):
+            o2, deep = guarded(lambda: deep_max(val, [20000]), 4.0)
+            if o2 != "Ok":
+                out, deep = o2, None
     over = [r for r in _recorded if task.get("Q") and task["Q"] > 0 and r[1] > task["Q"]]
-    emit({"end": task["id"], "outcome": out, "size": size, "inner_size": inner, "peak": peak,
+    emit({"end": task["id"], "outcome": out, "size": size, "inner_size": inner, "peak": peak, "deep_max": deep,
           "pulls": max([s.pulls for s in Src.registry] or [0]),
           "products": list(CountInt.log), "args_over_quota": over[:5],
           "kind": type(val).__name__ if out == "Ok" else None})
